@@ -89,7 +89,10 @@ def m2():
                         allocs('ta', ['t1']), allocs('ta', ['t1'], 'p2'),
                         # variant 4: the assignment of p.* is withdrawn
                         # (instances fall back to the default tenant)
-                        allocs(None, [])],
+                        allocs(None, []),
+                        # variant 5: the tenant requires a trait that no
+                        # server offers and /traits does not list
+                        allocs('ta', ['zz'])],
         'templates': {
             'pl': {'memory': '3M', 'cpu': '3%', 'disk': '3M', 'affinity': 'a'},
             't1': {'memory': '6M', 'cpu': '2%', 'disk': '2M', 'affinity': 'b',
